@@ -746,7 +746,7 @@ pub fn c08(ctx: &mut Ctx) {
             if let Some(kind) = bad {
                 // a recorded finding (e.g. '-0') must reproduce exactly
                 let got_dev = masks_by_popcount().into_iter().find(|m| diff(&ref_eval_dev(&ptree, &ast, &[], None, xp::Dev::from_mask(*m)).0, &of).is_none() && diff(&op_, &of).is_none());
-                if let Some(m) = got_dev { ctx.violation(idx, &format!("C08/deviation/{}", xp::Dev::names(m)), &format!("{} = {}", flat, of.brief()), &[("expr", &flat)]); continue; }
+                if let Some(m) = got_dev { ctx.count(&format!("explained-by-recorded-C09-finding/{}", xp::Dev::names(m))); continue; }
                 let l = lib_eval(PREC_DOC, &flat, &[]);
                 if let Some(l) = &l { if diff(&exp, l).is_some() { ctx.inconclusive("oracle_disagreement"); if ctx.notes.len() < 10 { ctx.notes.push(format!("precedence: O2 {} O3 {} for {}", exp.brief(), l.brief(), flat)); } continue; } }
                 ctx.violation(idx, &format!("C08/precedence/{}/{}", op1.sym(), op2.sym()), &format!("{} gives {}; grammar grouping {} gives {}; reference {} ({})", flat, of.brief(), paren, op_.brief(), exp.brief(), kind), &[("expr", &flat), ("grouped", &paren), ("doc", PREC_DOC)]);
@@ -771,7 +771,7 @@ pub fn c08(ctx: &mut Ctx) {
             if bad.is_none() { if let Some(l) = &lib { bad = diff(l, &os); } }
             if let Some(kind) = bad {
                 // explained by the recorded '-0' finding? (only a string "-0" vs "0")
-                if let (Some(Outcome::Str(a)), Outcome::Str(b)) = (&lib, &os) { if a.replace("-0", "0") == b.replace("-0", "0") && diff(&ol, &os).is_none() { ctx.violation(idx, "C08/deviation/neg-zero-string", &short, &[("expr", &short)]); continue; } }
+                if let (Some(Outcome::Str(a)), Outcome::Str(b)) = (&lib, &os) { if a.replace("-0", "0") == b.replace("-0", "0") && diff(&ol, &os).is_none() { ctx.count("explained-by-recorded-C09-finding/neg-zero-string"); continue; } }
                 ctx.violation(idx, &format!("C08/node-type-test/{}", kind), &format!("{} gives {}; {} gives {}; libxml2 {}", short, os.brief(), long, ol.brief(), lib.map(|l| l.brief()).unwrap_or_default()), &[("expr", &short), ("doc", NT_DOC)]);
             }
         }
@@ -881,8 +881,237 @@ pub fn c09(ctx: &mut Ctx) {
         }
     }
 }
-pub fn c10(_: &mut Ctx) {}
-pub fn c19(_: &mut Ctx) {}
+// ------------------------------------------------------------------------------------------------
+// C10: namespaces
+
+fn rename_elem(e: &model::Elem, map: &dyn Fn(&str) -> String) -> model::Elem {
+    let rp = |p: &Option<String>| p.as_ref().map(|p| if p == "xml" { p.clone() } else { map(p) });
+    model::Elem {
+        prefix: rp(&e.prefix), local: e.local.clone(),
+        nsdecls: e.nsdecls.iter().map(|(p, u)| (rp(p), u.clone())).collect(),
+        attrs: e.attrs.iter().map(|a| model::Attr { prefix: rp(&a.prefix), local: a.local.clone(), value: a.value.clone() }).collect(),
+        children: e.children.iter().map(|c| match c { model::Node::Elem(x) => model::Node::Elem(rename_elem(x, map)), o => o.clone() }).collect(),
+    }
+}
+
+fn rename_expr(e: &Expr, map: &dyn Fn(&str) -> String) -> Expr {
+    let rt = |t: &Test| match t { Test::Name(Some(p), l) => Test::Name(Some(map(p)), l.clone()), Test::NsAny(p) => Test::NsAny(map(p)), o => o.clone() };
+    match e {
+        Expr::Bin(op, a, b) => Expr::Bin(*op, Box::new(rename_expr(a, map)), Box::new(rename_expr(b, map))),
+        Expr::Neg(a) => Expr::Neg(Box::new(rename_expr(a, map))),
+        Expr::Func(n, args) => Expr::Func(n.clone(), args.iter().map(|a| rename_expr(a, map)).collect()),
+        Expr::Path(start, steps) => {
+            let start = match start { Start::Filter(fe, preds) => Start::Filter(Box::new(rename_expr(fe, map)), preds.iter().map(|p| rename_expr(p, map)).collect()), o => o.clone() };
+            Expr::Path(start, steps.iter().map(|s| Step { axis: s.axis, test: rt(&s.test), preds: s.preds.iter().map(|p| rename_expr(p, map)).collect(), dslash: s.dslash }).collect())
+        }
+        o => o.clone(),
+    }
+}
+
+/// do the results of an expression depend on prefix *strings* (name() of prefixed nodes, namespace axis names)?
+fn mentions_prefix_strings(e: &Expr) -> bool { let f = xp::feature_set(e); f.iter().any(|x| x == "fn:name" || x == "axis:namespace") }
+
+pub const OPT_NS: model::DumpOpt = model::DumpOpt { merged: true, ns: true, prolog: false, specified: false, reflevel: false };
+
+pub fn c10(ctx: &mut Ctx) {
+    let ndocs: u64 = if ctx.thorough { 60_000 } else { 2_400 };
+    let per_doc = if ctx.thorough { 24 } else { 12 };
+    for d in 0..ndocs {
+        if !ctx.mine(d) { continue; }
+        let mut r = ctx.rng(d);
+        ctx.begin(d, "");
+        let mut cfg = xdoc_cfg(); cfg.dtd = false; cfg.max_attrs = 3;
+        let case = match make_case(&mut r, cfg) { Ok(c) => c, Err(e) => { ctx.inconclusive(&format!("document_not_usable:{}", crate::util::truncate(&e, 40))); continue; } };
+        let feats = model::features(&case.doc);
+        for f in &feats { if f.starts_with("ns") || f.contains("prefix") { ctx.count(&format!("doc/{}", f)); } }
+        ctx.evaluations += 1;
+        ctx.nontrivial(&case.text);
+        if d % 211 == 0 { ctx.sample(&case.text); }
+        // (a) expanded names and in-scope namespaces of every element and attribute, through the DOM accessors
+        let exp = model::expected_dump(&case.doc, OPT_NS);
+        match guarded(|| crate::obs::dump_xmlrs(&case.text, OPT_NS)) {
+            Caught::Ok(Ok(o)) => { if o.dump != exp { let df = crate::util::first_diff(&exp, &o.dump); let kind = if df.contains("\"I ") { "in-scope" } else if df.contains("\"A ") { "attribute" } else if df.contains("\"E ") { "element" } else { "other" }; ctx.violation(d, &format!("C10/ns/{}", kind), &format!("{} :: doc {}", df, case.text), &[("doc", &case.text)]); } else { ctx.count("dom-expanded-names-agree"); } }
+            Caught::Ok(Err(e)) => ctx.violation(d, "C10/ns/error", &format!("{} :: doc {}", e, case.text), &[("doc", &case.text)]),
+            Caught::Panic { file, msg } => ctx.violation(d, &format!("C10/panic/{}/{}", file, norm_msg(&msg)), &case.text, &[("doc", &case.text)]),
+            Caught::Budget(_) => {}
+        }
+        // (b) namespace-uri / local-name / name of the n-th element and of its attributes, through XPath
+        let elems: Vec<usize> = (0..case.tree.nodes.len()).filter(|&i| case.tree.nodes[i].kind == RKind::Elem).collect();
+        for (n, &ei) in elems.iter().enumerate().take(12) {
+            let nd = &case.tree.nodes[ei];
+            let qn = match &nd.prefix { Some(p) => format!("{}:{}", p, nd.local), None => nd.local.clone() };
+            for (fname, want) in [("namespace-uri", nd.uri.clone().unwrap_or_default()), ("local-name", nd.local.clone()), ("name", qn.clone())] {
+                let s = format!("{}((//*)[{}])", fname, n + 1);
+                ctx.count("xpath-name-functions");
+                let (o, _) = xmlrs_eval(&case.subj, &s, &[], None, STEP_BUDGET);
+                if o != Outcome::Str(want.clone()) { ctx.violation(d, &format!("C10/xpath/{}/element", fname), &format!("{} gave {} expected {:?} :: doc {}", s, o.brief(), want, case.text), &[("doc", &case.text), ("expr", &s)]); }
+            }
+            for &ai in &nd.attrs {
+                let a = &case.tree.nodes[ai];
+                let aq = match &a.prefix { Some(p) => format!("{}:{}", p, a.local), None => a.local.clone() };
+                if aq.contains('\'') { continue; }
+                for (fname, want) in [("namespace-uri", a.uri.clone().unwrap_or_default()), ("local-name", a.local.clone())] {
+                    let s = format!("{}((//*)[{}]/@*[name()='{}'])", fname, n + 1, aq);
+                    ctx.count("xpath-name-functions");
+                    let (o, _) = xmlrs_eval(&case.subj, &s, &[], None, STEP_BUDGET);
+                    if o != Outcome::Str(want.clone()) { ctx.violation(d, &format!("C10/xpath/{}/attribute", fname), &format!("{} gave {} expected {:?} :: doc {}", s, o.brief(), want, case.text), &[("doc", &case.text), ("expr", &s)]); }
+                }
+            }
+        }
+        // (c) name tests under caller bindings: absolute value against the references, and invariance under renaming
+        let uris: Vec<String> = { let mut v: Vec<String> = vec![]; for n in &case.tree.nodes { if let Some(u) = &n.uri { if u != model::XML_NS && !v.contains(u) { v.push(u.clone()); } } } v.push("urn:unused".into()); v };
+        let caller: Vec<(String, String)> = uris.iter().enumerate().map(|(i, u)| (format!("c{}", i), u.clone())).collect();
+        let mut g = c05_gen(&case.doc);
+        g.prefixes = caller.iter().map(|c| c.0.clone()).collect();
+        g.funcs.retain(|f| !matches!(*f, "lang"));
+        // a bijective renaming of the document's prefixes (and one of the caller's)
+        let doc_map = |p: &str| -> String { match p { "p" => "q".into(), "q" => "zz".into(), "r" => "p".into(), o => format!("{}x", o) } };
+        let renamed_doc = Doc { root: rename_elem(&case.doc.root, &doc_map), ..case.doc.clone() };
+        // both renderings keep the attribute order of the model (the order of attribute nodes is implementation
+        // dependent, so an expression may legitimately depend on it)
+        let renamed_text = model::render(&renamed_doc, &mut r, Style { minimal: true });
+        let renamed_subj = subject(&renamed_text, true);
+        let plain_text = model::render(&case.doc, &mut r, Style { minimal: true });
+        let plain_subj = subject(&plain_text, true);
+        let call_map = |p: &str| -> String { format!("k{}", p) };
+        let caller2: Vec<(String, String)> = caller.iter().rev().map(|(p, u)| (call_map(p), u.clone())).collect();
+        for k in 0..per_doc {
+            let e = if k % 3 == 0 {
+                // a bare name test on an axis that selects elements or attributes
+                let axis = *r.pick(&[Axis::Child, Axis::Descendant, Axis::Attribute, Axis::DescendantOrSelf]);
+                let pool: Vec<String> = if axis == Axis::Attribute { g.attr_names.clone() } else { g.names.clone() };
+                let test = match r.below(4) { 0 => Test::Any, 1 => Test::NsAny(r.pick(&g.prefixes).clone()), 2 => Test::Name(Some(r.pick(&g.prefixes).clone()), r.pick(&pool).clone()), _ => Test::Name(None, r.pick(&pool).clone()) };
+                let mut steps = vec![Step { axis: Axis::DescendantOrSelf, test: Test::Node, preds: vec![], dslash: false }];
+                steps.push(Step { axis, test, preds: vec![], dslash: false });
+                Expr::Path(Start::Root, steps)
+            } else { g.top(&mut r) };
+            let estr = xp::render(&e, Spelling { abbrev: r.chance(1, 2), spaces: false, full_parens: false, redundant: false, outer_ws: false }, None);
+            ctx.evaluations += 1;
+            ctx.nontrivial(&format!("{}|{}", estr, case.text));
+            let (got, _) = xmlrs_eval(&case.subj, &estr, &caller, None, STEP_BUDGET);
+            if matches!(got, Outcome::Panic(_) | Outcome::Steps) { ctx.count("totality-failure(see C06)"); continue; }
+            let exp = ref_eval(&case.tree, &e, &caller, None);
+            match judge_outcomes(&case, &e, &estr, &caller, &exp, &got) {
+                Judgement::Agree => ctx.count("name-tests-agree"),
+                // explained exactly by a recorded XPath finding that is not a namespace matter (C05's): not a C10 event
+                Judgement::Deviation { mask, .. } => ctx.count(&format!("explained-by-recorded-C05-finding/{}", xp::Dev::names(mask))),
+                Judgement::Violation { kind, detail } => ctx.violation(d, &format!("C10/nametest/{}", kind), &format!("{} :: expr {} :: bindings {:?} :: doc {}", detail, estr, caller, case.text), &[("doc", &case.text), ("expr", &estr)]),
+                Judgement::Inconclusive(why) => { ctx.inconclusive("oracle_disagreement"); if ctx.notes.len() < 10 { ctx.notes.push(format!("{} :: {} :: {}", why, estr, case.text)); } }
+            }
+            if mentions_prefix_strings(&e) { ctx.count("rename/skipped-prefix-string-sensitive"); continue; }
+            // renaming the caller's prefixes (expression + bindings)
+            let e2 = rename_expr(&e, &call_map);
+            let s2 = xp::render(&e2, Spelling::abbreviated(), None);
+            let (got2, _) = xmlrs_eval(&case.subj, &s2, &caller2, None, STEP_BUDGET);
+            ctx.count("rename/caller");
+            if let Some(kind) = diff(&got, &got2) { ctx.violation(d, &format!("C10/rename/caller/{}", kind), &format!("{} with {:?} gives {}; {} with {:?} gives {} :: doc {}", estr, caller, got.brief(), s2, caller2, got2.brief(), case.text), &[("doc", &case.text), ("expr", &estr)]); }
+            // renaming the document's prefixes
+            if let (Ok(rs), Ok(ps)) = (&renamed_subj, &plain_subj) {
+                let (got3, _) = xmlrs_eval(rs, &estr, &caller, None, STEP_BUDGET);
+                let (got, _) = xmlrs_eval(ps, &estr, &caller, None, STEP_BUDGET);
+                ctx.count("rename/document");
+                // attribute locators carry the (renamed) prefix: compare them by local name
+                let strip = |o: &Outcome| -> Outcome { match o { Outcome::Nodes(v) => Outcome::Nodes(v.iter().map(|l| match l.find('@') { Some(p) => match l[p..].find(':') { Some(c) => format!("{}@{}", &l[..p], &l[p + c + 1..]), None => l.clone() }, None => l.clone() }).collect()), o => o.clone() } };
+                if let Some(kind) = diff(&strip(&got), &strip(&got3)) { ctx.violation(d, &format!("C10/rename/document/{}", kind), &format!("{} gives {} on {} but {} on {}", estr, got.brief(), plain_text, got3.brief(), renamed_text), &[("doc", &plain_text), ("renamed", &renamed_text), ("expr", &estr)]); }
+            } else { ctx.inconclusive("renamed_document_not_usable"); }
+            // the caller's default namespace (an xml-rs extension): only renaming invariance is demanded
+            if k % 4 == 1 {
+                let dflt = r.pick(&uris).clone();
+                let (g1, _) = xmlrs_eval(&case.subj, &estr, &caller, Some(&dflt), STEP_BUDGET);
+                let (g2, _) = xmlrs_eval(&case.subj, &s2, &caller2, Some(&dflt), STEP_BUDGET);
+                ctx.count("rename/caller-with-default-binding");
+                if let Some(kind) = diff(&g1, &g2) { ctx.violation(d, &format!("C10/rename/caller-default/{}", kind), &format!("{} gives {}; {} gives {} (default {}) :: doc {}", estr, g1.brief(), s2, g2.brief(), dflt, case.text), &[("doc", &case.text), ("expr", &estr)]); }
+            }
+        }
+    }
+}
+// ------------------------------------------------------------------------------------------------
+// C19: determinism and freedom from side effects
+
+const FAILING: &[&str] = &["//*[nosuch()]", "//*[count(1)]", "//*[$v]", "//*[zz:a]", "//*['a' | *]", "//*[string-length(1,2)]", "//*[*[*[nosuch()] or nosuch()]]", "(//*)[nosuch()]", "(//node())[position() = nosuch()]", "//*[position() = 1][nosuch()]", "//*[1][count('x')]", "count(//*[nosuch()])", "//*[not(nosuch())]/..", "//*[last() = nosuch()]", "//@*[sum(1)]", "//*[id('x')]", "//node()[self::zz:*]", "(//*[1])[count(2)]", "//*[concat('a')]", "//*[true(1)]", "//*[", "//*[1", "((", "//*[)]", "1 +", "//*[1]/[2]", "@", "//*[substring()]", "//*[text()[nosuch()]]", "//text()[nosuch()]", "//*[@*[nosuch()]]"];
+const PROBES: &[&str] = &["position()", "last()", "position() + last()", "string(position())", "//*[position() = last()]", "count(//*)", "//*[1]", "(//*)[last()]", "//*[last()]", "/*[position()]"];
+
+fn order_snapshot(s: &Subject) -> Vec<(String, usize)> {
+    // order keys of every mapped node, by locator
+    fn walk(n: &xml_dom::XmlNode, s: &Subject, out: &mut Vec<(String, usize)>, budget: &mut usize) {
+        if *budget == 0 { return; } *budget -= 1;
+        out.push((locator_of(s, n), n.order()));
+        if let Some(attrs) = n.attributes() { for a in attrs.iter() { let an = a.as_node(); out.push((locator_of(s, &an), an.order())); } }
+        for c in n.child_nodes().iter() { walk(&c, s, out, budget); }
+    }
+    let mut out = vec![]; let mut b = 50_000usize;
+    walk(&s.dom.as_node(), s, &mut out, &mut b);
+    out
+}
+
+pub fn c19(ctx: &mut Ctx) {
+    let ndocs: u64 = if ctx.thorough { 40_000 } else { 1_600 };
+    for d in 0..ndocs {
+        if !ctx.mine(d) { continue; }
+        let mut r = ctx.rng(d);
+        ctx.begin(d, "");
+        let mut cfg = xdoc_cfg(); cfg.attlist_effective = r.chance(1, 4);
+        let merged = r.chance(3, 4);
+        let doc = { let mut g = Gen::new(&mut r, cfg); g.doc() };
+        let text = model::render(&doc, &mut r, Style { minimal: false });
+        // (1) parsing twice
+        let p = guarded(|| -> Result<Option<(String, String)>, String> {
+            let a = crate::obs::parse_dom(&text, merged)?; let b = crate::obs::parse_dom(&text, merged)?;
+            if a.rest != b.rest { return Ok(Some(("rest".into(), format!("{} vs {}", a.rest, b.rest)))); }
+            if a.doc != b.doc { return Ok(Some(("not-equal".into(), "PartialEq says two parses of one text differ".into()))); }
+            let (sa, sb) = (a.doc.to_string(), b.doc.to_string());
+            if sa != sb { return Ok(Some(("serialization".into(), format!("{:?} vs {:?}", sa, sb)))); }
+            let (da, db) = (crate::obs::dump_tree(&a.doc, OPT_NS)?, crate::obs::dump_tree(&b.doc, OPT_NS)?);
+            if da != db { return Ok(Some(("observation".into(), crate::util::first_diff(&da, &db)))); }
+            Ok(None)
+        });
+        ctx.evaluations += 1;
+        match p {
+            Caught::Ok(Ok(None)) => ctx.count("parse-twice-equal"),
+            Caught::Ok(Ok(Some((k, dt)))) => ctx.violation(d, &format!("C19/det/parse/{}", k), &format!("{} :: doc {}", dt, text), &[("doc", &text)]),
+            Caught::Ok(Err(_)) => { ctx.inconclusive("document_not_usable"); continue; }
+            _ => { ctx.count("totality-failure(see C03)"); continue; }
+        }
+        // (2) query sequences under one shared context
+        let subj = match subject(&text, merged) { Ok(s) => s, Err(_) => { ctx.inconclusive("document_not_usable"); continue; } };
+        let mut ns: Vec<(String, String)> = vec![];
+        fn walk(e: &model::Elem, ns: &mut Vec<(String, String)>) { for (p, u) in &e.nsdecls { if let Some(p) = p { if !u.is_empty() && !ns.iter().any(|x| &x.0 == p) { ns.push((p.clone(), u.clone())); } } } for c in &e.children { if let model::Node::Elem(x) = c { walk(x, ns); } } }
+        walk(&doc.root, &mut ns);
+        let s0 = subj.dom.to_string();
+        let dump0 = crate::obs::dump_tree(&subj.dom, OPT_NS).unwrap_or_default();
+        let ord0 = order_snapshot(&subj);
+        let mut g = XGen::for_doc(&doc); g.allow_pi_literal = true; g.funcs.retain(|f| *f != "id");
+        let mut shared = XContext::default();
+        for (p, u) in &ns { shared.add_ns(Some(p.as_str()), u.as_str()); }
+        let nq = r.range(2, if ctx.thorough { 30 } else { 20 });
+        let mut seq: Vec<String> = vec![];
+        for q in 0..nq {
+            let estr = match r.below(10) {
+                0 | 1 | 2 => { let f = r.pick_s(FAILING).to_string(); match r.below(3) { 0 => f, 1 => { let e = g.nodeset(&mut r, 1, true); format!("{}[{}]", xp::render(&e, Spelling::abbreviated(), None), f) } _ => format!("count({})", f) } }
+                3 | 4 => r.pick_s(PROBES).to_string(),
+                _ => { let e = g.top(&mut r); xp::render(&e, Spelling { abbrev: r.chance(1, 2), spaces: false, full_parens: false, redundant: false, outer_ws: false }, None) }
+            };
+            seq.push(estr.clone());
+            ctx.evaluations += 1;
+            let (o_shared, _) = xmlrs_eval_cx(&subj, &estr, &mut shared, STEP_BUDGET);
+            if matches!(o_shared, Outcome::Panic(_) | Outcome::Steps) { ctx.count("totality-failure(see C06)"); break; }
+            ctx.count(if matches!(o_shared, Outcome::Err(_)) { "query/error" } else { "query/value" });
+            let (ds, dp) = shared.verif_depths();
+            if ds != 0 || dp != 0 { ctx.violation(d, &format!("C19/ctx/leak/{}", if ds != 0 { "size" } else { "position" }), &format!("after {:?} the context stacks have depths size={} position={} :: sequence {:?} :: doc {}", estr, ds, dp, seq, text), &[("doc", &text), ("expr", &estr)]); shared = XContext::default(); for (p, u) in &ns { shared.add_ns(Some(p.as_str()), u.as_str()); } }
+            let (o_fresh, _) = xmlrs_eval(&subj, &estr, &ns, None, STEP_BUDGET);
+            if let Some(kind) = diff(&o_fresh, &o_shared) { ctx.violation(d, &format!("C19/ctx/answer-differs/{}", kind), &format!("query #{} {:?}: fresh context {} shared context {} :: sequence {:?} :: doc {}", q, estr, o_fresh.brief(), o_shared.brief(), seq, text), &[("doc", &text), ("expr", &estr), ("sequence", &seq.join("\n"))]); }
+            let (o_again, _) = xmlrs_eval_cx(&subj, &estr, &mut shared, STEP_BUDGET);
+            if let Some(kind) = diff(&o_shared, &o_again) { ctx.violation(d, &format!("C19/repeat/{}", kind), &format!("{:?} first {} second {} :: doc {}", estr, o_shared.brief(), o_again.brief(), text), &[("doc", &text), ("expr", &estr)]); }
+            if subj.dom.to_string() != s0 { ctx.violation(d, "C19/sidefx/serialization", &format!("after {:?} the document prints differently :: doc {}", estr, text), &[("doc", &text), ("expr", &estr)]); break; }
+        }
+        ctx.nontrivial(&format!("{}|{}", seq.join(";"), text));
+        if d % 101 == 0 { ctx.sample(&format!("{:?}  ON  {}", seq, crate::util::truncate(&text, 200))); }
+        match crate::obs::dump_tree(&subj.dom, OPT_NS) { Ok(dm) => if dm != dump0 { ctx.violation(d, "C19/sidefx/observation", &format!("{} :: sequence {:?} :: doc {}", crate::util::first_diff(&dump0, &dm), seq, text), &[("doc", &text)]); }, Err(e) => ctx.violation(d, "C19/sidefx/observation-error", &e, &[("doc", &text)]) }
+        let ord1 = order_snapshot(&subj);
+        if ord1 != ord0 { let w = ord0.iter().zip(ord1.iter()).find(|(a, b)| a != b).map(|(a, b)| format!("{} had order {} now {} has {}", a.0, a.1, b.0, b.1)).unwrap_or_else(|| "length".into()); ctx.violation(d, "C19/sidefx/order-keys", &format!("{} :: sequence {:?} :: doc {}", w, seq, text), &[("doc", &text)]); }
+        else { ctx.count("document-unchanged-after-sequence"); }
+    }
+}
 
 pub fn witness(prop: &str, f: &[String], _ctx: &mut Ctx) -> Option<String> {
     // fields: kind, doc text, expression [, expected outcome brief]
